@@ -51,6 +51,11 @@ type Step struct {
 	// raised during the previous slot and reaches the handler only after the next tick was processed
 	// (Scheduler.reorg and the feed are unbuffered, the handler's select picks among ready channels).
 	Late bool `json:"late,omitempty"`
+	// V (reorg only): the assignment version the beacon node serves, from this re-organisation on, for
+	// the epochs whose duties depend on the changed root (attester: previous root -> e and e+1, current
+	// root -> e+1; proposer: current root -> e; sync committees do not depend on either). It may equal
+	// the old version (a reorg that did not move the operator's duties).
+	V int `json:"v,omitempty"`
 	// Comm / Other (indices only): new validator set (bit i of Comm = validator i+1 is one of the
 	// operator's validators; bit j of Other = validator 5+j is active but belongs to other operators)
 	Comm  uint8 `json:"comm,omitempty"`
@@ -59,7 +64,7 @@ type Step struct {
 
 type FetchSpec struct {
 	Fail bool `json:"fail,omitempty"`
-	V    int  `json:"v"`           // assignment version served (0..2)
+	V    int  `json:"v,omitempty"` // ignored since versions are bound to reorg notices (kept so that old replay files parse)
 	N    int  `json:"n,omitempty"` // run length: this spec answers N consecutive calls (default 1)
 }
 
@@ -137,6 +142,7 @@ type world struct {
 	// the interpreter only while the handler is parked in its select (ordered by the channel ops).
 	log    []logEntry
 	nfetch int
+	ver    map[uint64]int // epoch -> assignment version the node currently serves (default 0)
 	subs   atomic.Int64
 }
 
@@ -164,6 +170,49 @@ func (w *world) allIdx() []phase0.ValidatorIndex {
 
 func (w *world) isComm(val uint64) bool {
 	return val >= 1 && val <= 4 && w.comm.Load()&(1<<(val-1)) != 0
+}
+
+// versionUnits: the epochs whose assignment a re-organisation changes (beacon API: attester duties of
+// epoch e depend on the previous, of e+1 on the current dependent root, and a changed previous root
+// implies a changed current root; proposer duties of e depend on the current dependent root).
+func versionUnits(role, kind string, stamp uint64) []uint64 {
+	e := stamp / slotsPerEpoch
+	switch {
+	case role == "attester" && kind == "reorg-prev":
+		return []uint64{e, e + 1}
+	case role == "attester" && kind == "reorg-cur":
+		return []uint64{e + 1}
+	case role == "proposer" && kind == "reorg-cur":
+		return []uint64{e}
+	}
+	return nil
+}
+
+// currentOwn: the duties the node would report right now for the operator's own validators in
+// epoch / period u (what a fetch at this moment would return, restricted to in-committee validators).
+func (w *world) currentOwn(u uint64) map[dkey]bool {
+	out := map[dkey]bool{}
+	switch w.p.Role {
+	case "attester":
+		for _, i := range w.commIdx() {
+			if s, ok := attSlot(w.p.Seed, w.ver[u], u, uint64(i)); ok {
+				out[dkey{uint64(i), s}] = true
+			}
+		}
+	case "proposer":
+		for s := u * slotsPerEpoch; s < (u+1)*slotsPerEpoch; s++ {
+			if v := proposerAt(w.p.Seed, w.ver[u], s); v != 0 && w.isComm(v) {
+				out[dkey{v, s}] = true
+			}
+		}
+	case "sync":
+		for _, i := range w.commIdx() {
+			if syncMember(w.p.Seed, 0, u, uint64(i)) {
+				out[dkey{uint64(i), 0}] = true
+			}
+		}
+	}
+	return out
 }
 
 func phase0Slot(s uint64) phase0.Slot { return phase0.Slot(s) }
@@ -194,7 +243,7 @@ func (w *world) AttesterDuties(_ context.Context, epoch phase0.Epoch, idx []phas
 	var out []*eth2apiv1.AttesterDuty
 	set := map[dkey]bool{}
 	for _, i := range idx {
-		if s, ok := attSlot(w.p.Seed, sp.V, uint64(epoch), uint64(i)); ok {
+		if s, ok := attSlot(w.p.Seed, w.ver[uint64(epoch)], uint64(epoch), uint64(i)); ok {
 			out = append(out, &eth2apiv1.AttesterDuty{PubKey: pubKey(uint64(i)), Slot: phase0.Slot(s), ValidatorIndex: i,
 				CommitteeIndex: 1, CommitteeLength: 128, CommitteesAtSlot: 4, ValidatorCommitteeIndex: uint64(i)})
 			set[dkey{uint64(i), s}] = true
@@ -217,7 +266,7 @@ func (w *world) ProposerDuties(_ context.Context, epoch phase0.Epoch, idx []phas
 	var out []*eth2apiv1.ProposerDuty
 	set := map[dkey]bool{}
 	for s := uint64(epoch) * slotsPerEpoch; s < (uint64(epoch)+1)*slotsPerEpoch; s++ {
-		if v := proposerAt(w.p.Seed, sp.V, s); v != 0 && want[v] {
+		if v := proposerAt(w.p.Seed, w.ver[uint64(epoch)], s); v != 0 && want[v] {
 			out = append(out, &eth2apiv1.ProposerDuty{PubKey: pubKey(v), Slot: phase0.Slot(s), ValidatorIndex: phase0.ValidatorIndex(v)})
 			set[dkey{v, s}] = w.isComm(v)
 		}
@@ -236,7 +285,7 @@ func (w *world) SyncCommitteeDuties(_ context.Context, epoch phase0.Epoch, idx [
 	var out []*eth2apiv1.SyncCommitteeDuty
 	set := map[dkey]bool{}
 	for _, i := range idx {
-		if syncMember(w.p.Seed, sp.V, period, uint64(i)) {
+		if syncMember(w.p.Seed, 0, period, uint64(i)) {
 			out = append(out, &eth2apiv1.SyncCommitteeDuty{PubKey: pubKey(uint64(i)), ValidatorIndex: i,
 				ValidatorSyncCommitteeIndices: []phase0.CommitteeIndex{phase0.CommitteeIndex(i)}})
 			set[dkey{uint64(i), 0}] = w.isComm(uint64(i))
